@@ -147,6 +147,8 @@ def _run_one(args):
 
 
 def _worker_init(prop_id, nthreads):
+    mod0 = _load_mod(prop_id)
+    nthreads = getattr(mod0, "NUMBA_THREADS", nthreads)
     os.environ["NUMBA_NUM_THREADS"] = str(nthreads)
     try:
         import numba
@@ -285,8 +287,13 @@ def run_property(prop_id, tier, seed, workers=None, replay=None, only=None):
         if v["case"] is not None and v["case"][0] in mod.KINDS:
             again = _rerun_keys(mod, v["case"])
             if again is not None and key not in again:
-                print("HARNESS-ERROR: violation %s did not reproduce on re-execution (got %s)" % (key, sorted(again)[:5]), flush=True)
-                return 2
+                if getattr(mod, "NONDETERMINISM_IS_VIOLATION", False):
+                    # the property itself demands schedule independence: a result that changes between
+                    # two executions of the same case is a violation, reported as such
+                    v["what"] = "[result differs between two executions of the same case: depends on scheduling] " + v["what"]
+                else:
+                    print("HARNESS-ERROR: violation %s did not reproduce on re-execution (got %s)" % (key, sorted(again)[:5]), flush=True)
+                    return 2
         path = os.path.join(REPLAY_DIR, prop_id, "%03d.json" % n)
         with open(path, "w") as fh:
             json.dump({"property": prop_id, "key": key, "what": v["what"], "case": v["case"],
@@ -326,9 +333,16 @@ def run_property(prop_id, tier, seed, workers=None, replay=None, only=None):
     return rc
 
 
+_PARENT_INIT = False
+
+
 def _rerun_keys(mod, case):
+    global _PARENT_INIT
     kind, params = case
     try:
+        if not _PARENT_INIT and hasattr(mod, "worker_init"):
+            mod.worker_init()
+        _PARENT_INIT = True
         r = mod.KINDS[kind](params)
     except Exception:
         traceback.print_exc()
